@@ -31,4 +31,23 @@ struct UAio {
 	nng_err wait(uint64_t timeout_ns = 0);
 	bool    poll() const { return done != 0; }
 };
+
+// Bounded liveness for a blocking call made by the current task: if the
+// guarded scope is still executing after `bound_ns` of virtual time (not
+// counting injected thread stalls) the run ends with violation `cls` of
+// property `prop`.  Implemented by a daemon watchdog task, so it also turns
+// a "hang with timers still ticking" (which the deadlock detector cannot
+// see) into a definite verdict.
+struct Bounded {
+	struct State {
+		volatile int done;
+		const char  *prop, *cls;
+		char         what[96];
+		uint64_t     bound_ns, t0, stall0;
+	};
+	State *st;
+	Bounded(const char *prop, const char *cls, uint64_t bound_ns, const char *fmt, ...)
+	    __attribute__((format(printf, 5, 6)));
+	~Bounded();
+};
 #endif
